@@ -330,15 +330,23 @@ def formula_for(v, exact):
 class Query:
     """one formula: func over range arguments.  ``values``: the ranges as tuples of row tuples;
     ``rects``: (block, [r0, c0, r1, c1]) per argument for the worksheet path (None: library only)"""
-    __slots__ = ('tag', 'func', 'values', 'rects', 'out', 'bad')
+    __slots__ = ('tag', 'func', 'values', 'rects', 'out', 'bad', 'sibling')
 
     def __init__(self, tag, func, values, rects):
         self.tag, self.func, self.values, self.rects = tag, func, list(values), rects
         self.out = None
         self.bad = False
+        self.sibling = None       # SUBTOTAL: the named function over the same ranges, same workbook
 
     def model_func(self):
         return ref.SUBTOTAL[int(self.func.split(':')[1])] if self.func.startswith('SUBTOTAL') else self.func
+
+    def head(self):
+        """function a deviation is attributed to: a SUBTOTAL whose named function fails the same
+        way in the same workbook is the named function's defect, not one of the dispatch"""
+        if self.func.startswith('SUBTOTAL'):
+            return self.model_func() if self.sibling is not None and self.sibling.bad else 'SUBTOTAL'
+        return self.func
 
     def text(self, opt=None):
         if self.rects is None or opt is None:
@@ -516,8 +524,10 @@ def diagnose(sc, q, got, rel):
     Never the numbers themselves."""
     func = q.model_func()
     vals = q.values
-    head = q.func.split(':')[0]
+    head = q.head()
     errs = ref.errors_in(vals)
+    if head == 'SUBTOTAL' and q.sibling is not None:
+        return f'SUBTOTAL/code-{q.func.split(":")[1]}-differs-from-{func}'
     if isinstance(got, str) and got not in ERRORS:
         return f'{head}/returns-text-that-is-no-error-code'
     if func == 'SUMPRODUCT':
@@ -549,11 +559,6 @@ def diagnose(sc, q, got, rel):
         return f'{head}/error-cells-ignored'
     if not errs and isinstance(got, str) and ref.numerics_in(vals):
         return f'{head}/error-returned-for-error-free-range/{fallback_tag(sc, q)}'
-    if head == 'SUBTOTAL' and not errs:
-        for other in ref.FUNCS:
-            if other != func and ref.value(other, vals) != ref.value(func, vals) and \
-                    ref.matches(got, ref.value(other, vals), rel) and by_battery(head, func) is None:
-                return f'SUBTOTAL/code-{q.func.split(":")[1]}-computes-{other}'
     named = by_battery(head, func)
     if named:
         return named
@@ -576,7 +581,7 @@ def judge(ctx, sc, q, rel):
     """reference model + result type for one evaluated query"""
     opt = sc.get('wbopt')
     func, vals = q.model_func(), q.values
-    head = q.func.split(':')[0]
+    head = q.head()
     if q.out[0] == 'x':
         exc = q.out[1].split(':')[0]
         report(ctx, sc, q, f'{head}/raises-{exc}/{input_tag(sc, q)}',
@@ -807,6 +812,8 @@ def run_subtotal(ctx, sc):
         note_grid(ctx, g)
     named = {f: Query(f'N:{f}', f, grids, rects) for f in ref.FUNCS}
     subs = {n: Query(f'S:{n}', f'SUBTOTAL:{n}', grids, rects) for n in SUBTOTAL_CODES}
+    for n, q in subs.items():
+        q.sibling = named[ref.SUBTOTAL[n]]
     queries = list(named.values()) + list(subs.values())
     evaluate(ctx, sc, grids, queries)
     for q in queries:
